@@ -72,8 +72,23 @@ func main() {
 	}
 	sfText = strings.Replace(sfText, "\t\"sync\"\n", "\tsync \"servitor/verifrt/vsync\"\n", 1)
 	sfText = strings.Replace(sfText, `package singleflight // import "golang.org/x/sync/singleflight"`, "package singleflight", 1)
+	// The group mutex only guards point-free map operations, so under the cooperative
+	// scheduler it is never contended; making it a quiet mutex (no scheduling point, no
+	// happens-before edge) and ordering same-key operations explicitly keeps calls for
+	// different keys independent in the happens-before fingerprint.
+	if !strings.Contains(sfText, "mu sync.Mutex") {
+		die("singleflight: group mutex not found")
+	}
+	sfText = strings.Replace(sfText, "mu sync.Mutex", "mu sync.QuietMutex", 1)
+	for _, fn := range []string{"func (g *Group) Do(key string, fn func() (interface{}, error)) (v interface{}, err error, shared bool) {", "func (g *Group) Forget(key string) {"} {
+		if !strings.Contains(sfText, fn) {
+			die("singleflight: %q not found", fn)
+		}
+		sfText = strings.Replace(sfText, fn, fn+"\n\tverifrt.TouchKey(\"singleflight\", key)", 1)
+	}
+	sfText = strings.Replace(sfText, "\tsync \"servitor/verifrt/vsync\"\n", "\tsync \"servitor/verifrt/vsync\"\n\t\"servitor/verifrt\"\n", 1)
 	for _, m := range regexp.MustCompile(`sync\.(\w+)`).FindAllStringSubmatch(sfText, -1) {
-		if m[1] != "Mutex" && m[1] != "WaitGroup" {
+		if m[1] != "Mutex" && m[1] != "WaitGroup" && m[1] != "QuietMutex" {
 			die("singleflight uses sync.%s", m[1])
 		}
 	}
@@ -316,7 +331,11 @@ func rewrite(pkg, path string, src []byte) ([]byte, bool) {
 			var outl []ast.Stmt
 			for _, st := range list {
 				if mentionsShallow(st, "cache") {
-					outl = append(outl, &ast.ExprStmt{X: call(sel("verifrt", "Touch"), strLit("jtp.cache"))})
+					if keyExpr := cacheKeyExpr(st); keyExpr != nil {
+						outl = append(outl, &ast.ExprStmt{X: call(sel("verifrt", "TouchKey"), strLit("jtp.cache"), keyExpr)})
+					} else {
+						outl = append(outl, &ast.ExprStmt{X: call(sel("verifrt", "Touch"), strLit("jtp.cache"))})
+					}
 					rep.Rewritten = append(rep.Rewritten, pos(st.Pos())+" verifrt.Touch(jtp.cache)")
 					changed, needRT = true, true
 				}
@@ -429,6 +448,40 @@ func rewrite(pkg, path string, src []byte) ([]byte, bool) {
 		die("print %s: %v", rel, err)
 	}
 	return buf.Bytes(), true
+}
+
+// cacheKeyExpr returns the first argument of the cache.Get/Add/... call a statement makes
+// directly (so that accesses to different keys are not ordered against each other), or
+// nil if the statement touches the cache in another way.
+func cacheKeyExpr(st ast.Stmt) ast.Expr {
+	var key ast.Expr
+	n := 0
+	ast.Inspect(st, func(nd ast.Node) bool {
+		if nd == nil {
+			return false
+		}
+		if b, ok := nd.(*ast.BlockStmt); ok && ast.Node(b) != ast.Node(st) {
+			return false
+		}
+		if c, ok := nd.(*ast.CallExpr); ok {
+			if s, ok := c.Fun.(*ast.SelectorExpr); ok {
+				if id, ok := s.X.(*ast.Ident); ok && id.Name == "cache" {
+					n++
+					if (s.Sel.Name == "Get" || s.Sel.Name == "Add" || s.Sel.Name == "Peek" || s.Sel.Name == "Contains" || s.Sel.Name == "Remove") && len(c.Args) >= 1 {
+						key = c.Args[0]
+					} else {
+						key = nil
+						n += 100
+					}
+				}
+			}
+		}
+		return true
+	})
+	if n != 1 {
+		return nil
+	}
+	return key
 }
 
 func inspectNoLit(n ast.Node, f func(ast.Node)) {
